@@ -70,8 +70,13 @@ def rule_stride(ctx):
         else:
             res.inst(ikey, f["sp"]["file"], f["sp"]["line"], "ok", "stride %d = size of `%s`" % (K, mn))
     # code_table: one fixed jump per clause, in order, nothing else
-    key = "axcut2backend::utils::code_table"
-    f = ctx.fx.fn(key)
+    # the function of the code generator that emits the table: the one that calls jump_label_fixed (utils::code_table on the pinned tree)
+    tabs = sorted(k for k, g in ctx.fx.fns.items() if g["crate"] == "axcut2backend" and "{" not in k and
+                  any(b_["term"]["k"] == "call" and b_["term"].get("callee_name") == "jump_label_fixed" for b_ in g["blocks"]))
+    if len(tabs) != 1:
+        raise AnalysisError("R-STRIDE: %d functions of axcut2backend emit jump_label_fixed (one expected: the jump table)" % len(tabs))
+    key = tabs[0]
+    f = ctx.fx.fns[key]
     events = []
 
     def hook(I, p, fr, t, args):
@@ -177,7 +182,7 @@ def label_shape(fx, fn, operand, depth=0):
 
 
 def _shape_of_origin(fx, fn, o, depth):
-    if depth > 6:
+    if depth > 12:
         return [("other", "deep")]
     if o[0] == "const":
         s = o[1]
@@ -187,6 +192,9 @@ def _shape_of_origin(fx, fn, o, depth):
             d = fx.consts.get(s[4:], {})
             if "str" in d:
                 return [("lit", d["str"])]
+            if "{promoted#" in s and s[4:] in fx.fns and depth < 6:
+                # `&NAMED_CONSTANT` lives in a promoted constant of the function: what that constant evaluates to
+                return label_shape(fx, Fn(fx.fns[s[4:]]), {"k": "copy", "pl": {"l": 0, "p": []}}, depth + 1)
         return [("other", s)]
     if o[0] == "arg":
         return [("param", o[1], tuple(o[2]))] if o[2] else [("param", o[1])]
@@ -194,7 +202,7 @@ def _shape_of_origin(fx, fn, o, depth):
         t = fn.term(o[1])
         n = t.get("callee_name")
         ck = t.get("callee_key") or ""
-        if n == "fresh_label":
+        if (t.get("resolved_key") or ck) in backend.label_counter_fns(fx):
             return [("counter",)]
         if n == "print_to_string":
             return [("print", t.get("callee_self_adt") or t.get("callee_self") or "?")]
